@@ -145,6 +145,7 @@ CANARIES = [
     ("R11.hash", "canary_hash_for", _hash_exposed, True),
     ("R11.hash", "canary_hash_keyed", _hash_exposed, False),
     ("R11.env", "canary_clock", _env_source, True),
+    ("R11.env", "canary_clock_elapsed", _env_source, True),
     ("R11.env", "canary_env", _env_source, True),
     ("R11.env", "canary_ptr_to_int", _env_source, True),
     ("Rx.cfg", "canary_cfg", _cfg, True),
